@@ -420,13 +420,16 @@ def commit_program(rng, ncases, lanes=ALL_LANES, big=False, algos=("sha256", "sh
             if prior == "removed":
                 prog["steps"].append({"op": "remove", "lane": rng.choice(lanes), "key": key})
         opts = {}
-        sz = rng.choice(["none", "less", "equal", "equal", "more"])
+        sz = rng.choice(["none", "less", "equal", "equal", "more", "huge"])
         if sz == "less" and n > 0:
             opts["size"] = rng.choice([0, n - 1, max(0, n // 2)])
         elif sz == "equal":
             opts["size"] = n
         elif sz == "more":
             opts["size"] = n + rng.choice([1, 7, 5000])
+        elif sz == "huge":
+            # a declared size no allocation could satisfy: it is only ever compared at commit
+            opts["size"] = rng.choice([2 ** 31, 2 ** 40, 2 ** 62, 2 ** 63 - 1, 2 ** 63, 2 ** 64 - 2, 2 ** 64 - 1])
         sk = rng.choice(["none", "none", "right", "wrong", "other", "multi_weaker", "multi_stronger"])
         if noalgo and rng.random() < 0.5:
             sk = "other"
